@@ -145,8 +145,9 @@ def _pqr_model():
         ("ATOM", 18, "H", "GLY", None, -6, None, 1.5, 0.0, 12.25, 0.4, 0.0),
         ("HETATM", 1234, "O", "HOH", None, 301, None, 41.0, -22.0, 3.0, -0.834, 1.7683),
         ("HETATM", 12345, "C1", "LIG", "B", 301, None, 1.0, 2.0, -30.0, 0.1, 1.908),
+        ("ATOM", 20, "CA", "FAR", None, 999, None, -123.456, 2.0, -99.999, 0.25, 1.5),  # negative coordinates that fill their eight columns
     ]
-    out = [("REMARK   1 PQR file generated by PDB2PQR\n", None)]
+    out = [("REMARK   5 box 1.0 2.0 3.0 4.0   500.000 600.000 700.000 9.0000 80.0000\n", None)]  # a comment that would count if it were parsed
     for rec in recs:
         keys = ("type", "serial", "name", "res_name", "chain_id", "res_seq", "ins_code", "x", "y", "z", "charge", "radius")
         out.append((_pqr_line(*rec), dict(zip(keys, rec))))
@@ -155,6 +156,75 @@ def _pqr_model():
 
 
 PQR_MODEL_LINES = _pqr_model()
+_KEYS = ("type", "serial", "name", "res_name", "chain_id", "res_seq", "ins_code", "x", "y", "z", "charge", "radius")
+
+
+def writer_line(prog, rec):
+    """One PQR record as pdb2pqr's own writer (Atom.get_pqr_string) formats it: the writer is interpreted on an atom model."""
+    from ..guards import Flow, Obj
+    from ..objinterp import ObjRunner
+    f = dict(zip(_KEYS, rec))
+    a = Obj({"__class__": "Atom", "type": f["type"], "serial": f["serial"], "name": f["name"], "res_name": f["res_name"],
+             "chain_id": f["chain_id"] or "", "res_seq": f["res_seq"], "ins_code": f["ins_code"] or "", "x": f["x"], "y": f["y"], "z": f["z"],
+             "ffcharge": f["charge"], "radius": f["radius"], "alt_loc": "", "occupancy": 1.0, "temp_factor": 0.0, "seg_id": "", "element": "",
+             "charge": "", "residue": None})
+    run = ObjRunner(prog, "structures.py")
+    try:
+        out = run.call(a, "get_pqr_string", chainflag=f["chain_id"] is not None)
+    except Flow as fl:
+        raise AnalysisError(f"Atom.get_pqr_string stops with {fl.value} on a model atom") from None
+    if not isinstance(out, str):
+        raise AnalysisError("Atom.get_pqr_string did not return a string on a model atom")
+    return out if out.endswith("\n") else out + "\n"
+
+
+def respaced(prog, lines):
+    """The lines as print_pqr writes them with --whitespace (print_pqr is interpreted; non-record lines are dropped by it or kept)."""
+    from ..guards import Flow, Obj
+    from ..objinterp import ObjRunner
+    written = []
+
+    def extra(runner, interp, call, args, kw):
+        if U(call.func) == "open":
+            return Obj({"__class__": "FileModel"})
+        if isinstance(call.func, ast.Attribute) and call.func.attr == "write":
+            recv = interp.ev(call.func.value)
+            if isinstance(recv, dict) and recv.get("__class__") == "FileModel":
+                written.append(args[0])
+                return None
+        return NotImplemented
+
+    run = ObjRunner(prog, "main.py", extra_hook=extra)
+    argsm = Obj({"__class__": "Namespace", "whitespace": True, "output_pqr": "model.pqr"})
+    try:
+        run.call_function("main.py", "print_pqr", argsm, list(lines), [], [], False)
+    except Flow as fl:
+        raise AnalysisError(f"print_pqr stops with {fl.value} on the model lines") from None
+    return "".join(str(x) for x in written).splitlines(keepends=True)
+
+
+_MODEL_CACHE = {}
+
+
+def pqr_model(prog, extra_records=()):
+    """[(line, expected fields or None)]: header, the model records as the writer under analysis formats them (so that readers and
+    psize are checked against the writer itself), trailer.  Falls back to the frozen column layout if the writer cannot be interpreted."""
+    key = (id(prog), tuple(extra_records))
+    if key in _MODEL_CACHE:
+        return _MODEL_CACHE[key]
+    base = [w for _, w in PQR_MODEL_LINES if w is not None]
+    recs = [tuple(w[k] for k in _KEYS) for w in base] + list(extra_records)
+    out = [PQR_MODEL_LINES[0]]
+    try:
+        for rec in recs:
+            out.append((writer_line(prog, rec), dict(zip(_KEYS, rec))))
+        source = "writer"
+    except AnalysisError:
+        out = [PQR_MODEL_LINES[0]] + [(_pqr_line(*rec), dict(zip(_KEYS, rec))) for rec in recs]
+        source = "frozen layout"
+    out += list(PQR_MODEL_LINES[-2:])
+    _MODEL_CACHE[key] = (out, source)
+    return out, source
 
 
 def rule_pqr_reader(prog, rep, rid, title="pdb2pqr's own PQR reader turns every ATOM/HETATM line into one atom with the written field values"):
@@ -165,7 +235,9 @@ def rule_pqr_reader(prog, rep, rid, title="pdb2pqr's own PQR reader turns every 
     fr = prog.func("io.py", "read_pqr")
     where = f"pdb2pqr/io.py:{fr.node.lineno} (read_pqr) / pdb2pqr/structures.py (Atom.from_pqr_line)"
     run = ObjRunner(prog, "structures.py")
-    lines = [ln for ln, _ in PQR_MODEL_LINES]
+    model, source = pqr_model(prog)
+    r.info["model_lines_formatted_by"] = source
+    lines = [ln for ln, _ in model]
     try:
         run.rel = "io.py"
         atoms = run.call_function("io.py", "read_pqr", lines)
@@ -173,7 +245,7 @@ def rule_pqr_reader(prog, rep, rid, title="pdb2pqr's own PQR reader turns every 
         r.bad("reader|runs", f"read_pqr stops with {fl.value} on a model file made of the layouts the writer emits "
               "(default, --keep-chain, --whitespace, insertion code, negative residue number, five-digit serial)", where)
         return
-    want = [w for _, w in PQR_MODEL_LINES if w is not None]
+    want = [w for _, w in model if w is not None]
     if not isinstance(atoms, list):
         raise AnalysisError("read_pqr did not return a list on the model")
     r.add("reader|one-atom-per-coordinate-line", len(atoms) == len(want),
@@ -184,6 +256,20 @@ def rule_pqr_reader(prog, rep, rid, title="pdb2pqr's own PQR reader turns every 
         bad = {k: (got.get(k), w[k]) for k in w if got.get(k) != w[k]}
         r.add(f"reader|fields|{w['type']}:{w['serial']}", not bad, "every field equals the written token" if not bad else
               f"fields differ (read, written): {bad}", where)
+    # the same records as --whitespace writes them
+    try:
+        ws_lines = respaced(prog, lines)
+    except AnalysisError:
+        ws_lines = None
+    if ws_lines is not None:
+        try:
+            atoms2 = run.call_function("io.py", "read_pqr", ws_lines)
+        except Flow as fl:
+            atoms2 = f"stops with {fl.value}"
+        same = isinstance(atoms2, list) and len(atoms2) == len(want) and all(
+            isinstance(a, dict) and all(a.get(k) == w[k] for k in w) for a, w in zip(atoms2, want))
+        r.add("reader|whitespace-layout", same, "the records re-spaced by --whitespace are read back with the same field values" if same else
+              f"the --whitespace form of the model records is read back as {str(atoms2)[:160]}", where)
     r.info["model_lines"] = len(lines)
     r.info["methods_interpreted"] = sorted(set(run.calls))
 
